@@ -249,6 +249,10 @@ def opspecs(form, fields):
             elif d in ("#relS*4", "#relS") and "relS" in fnames:
                 spec = "(.rel %s %d %s)" % (q("relS"), 4096 if name == "adrp" else (4 if d.endswith("*4") else 1), "true" if name == "adrp" else "false")
                 used.add("relS")
+            elif re.fullmatch(r"#([A-Za-z_0-9]+)\*(\d+)", d) and d[1:].split("*")[0] in fnames and not d.startswith("#rel"):
+                fld, sc = d[1:].split("*")
+                spec = "(.immU %s %s)" % (q(fld), sc)
+                used.add(fld)
             elif re.fullmatch(r"#(\d+)", d):
                 spec = "(.immConst %s)" % d[1:]
             elif re.fullmatch(r"#([A-Za-z_0-9]+)", d) and d[1:] in fnames and not imm_attr and d[1:] not in ("n",):
@@ -320,12 +324,18 @@ def apply_errata(forms):
             if e.get("drop"):
                 continue
             f = dict(f)
+            f["_orig_name"], f["_orig_ops"], f["_orig_op"] = key
+            f["_orig_ops"] = list(f["_orig_ops"])
             if "new_op" in e:
                 f["opcodeString"] = e["new_op"]
             if "new_ops" in e:
                 f["ops"] = [dict(o, data=nd) for o, nd in zip(f["ops"], e["new_ops"])]
             if "new_name" in e:
                 f["name"] = e["new_name"]
+            if "new_value" in e:
+                f["_new_value"] = int(e["new_value"], 16)
+            if e.get("relax"):
+                f["_relax"] = True
         out.append(f)
     return out, sorted(set(applied))
 
@@ -344,10 +354,16 @@ def collect_forms(repo):
         except TranslateError:
             raise
         specs, free, srcs = opspecs(f, fields)
+        if "_new_value" in f:
+            value = f["_new_value"] & mask
+        if f.get("_relax"):
+            # the operand pattern of this database row is not reliable: template only
+            specs = ["(.unchecked %s)" % q("relaxed:" + d) for d in srcs]
+            free = sorted({n for n, _ in fields})
         for n in names:
             res.append({"name": n, "mask": mask, "value": value, "fields": fields, "ops": specs, "free": free, "opsrc": srcs,
                         "t": f.get("t", ""), "ta": f.get("ta", ""), "tb": f.get("tb", ""), "tatb": f.get("tatb", ""),
-                        "cond": f["name"] == "b.<cond>",
+                        "cond": f["name"] == "b.<cond>", "key": [f.get("_orig_name", f["name"]), f.get("_orig_ops", [o["data"] for o in f["ops"]]), f.get("_orig_op", f["opcodeString"])],
                         "src": "%s %s" % (f["name"], ", ".join(o["data"] for o in f["ops"]))})
     return res, applied
 
